@@ -246,3 +246,50 @@ def e2e_with(p, root, text):
         return ['ERR', 'Recursion']
     except Exception as e:
         return ['ERR', canon_err(exc_kind(e))]
+
+# ---------------------------------------------------------------------------------------
+# xslstr stage: the named string templates of akn_text.xsl, called through an importing stylesheet
+# ---------------------------------------------------------------------------------------
+_XSL_WRAPPER = None
+def _wrapper():
+    global _XSL_WRAPPER
+    if _XSL_WRAPPER is None:
+        from lxml import etree
+        import os
+        path = os.path.join(core.REPO, 'bluebell', 'akn_text.xsl')
+        src = '''<xsl:stylesheet version="1.0" xmlns:xsl="http://www.w3.org/1999/XSL/Transform" xmlns:a="http://docs.oasis-open.org/legaldocml/ns/akn/3.0">
+  <xsl:import href="file://%s"/>
+  <xsl:output method="text"/>
+  <xsl:param name="fn"/><xsl:param name="arg"/>
+  <xsl:template match="/">
+    <xsl:choose>
+      <xsl:when test="$fn='escape-inlines'"><xsl:call-template name="escape-inlines"><xsl:with-param name="text" select="$arg"/></xsl:call-template></xsl:when>
+      <xsl:when test="$fn='escape-prefixes'"><xsl:call-template name="escape-prefixes"><xsl:with-param name="text" select="$arg"/></xsl:call-template></xsl:when>
+      <xsl:when test="$fn='string-ltrim'"><xsl:call-template name="string-ltrim"><xsl:with-param name="text" select="$arg"/></xsl:call-template></xsl:when>
+      <xsl:when test="$fn='escape-num'"><xsl:call-template name="escape-hyphens"><xsl:with-param name="text"><xsl:call-template name="escape-slashes"><xsl:with-param name="text" select="$arg"/></xsl:call-template></xsl:with-param></xsl:call-template></xsl:when>
+      <xsl:when test="$fn='start-end-00'"><xsl:for-each select="//a:span/text()"><xsl:call-template name="escape-inlines-start-end"><xsl:with-param name="text" select="."/></xsl:call-template></xsl:for-each></xsl:when>
+      <xsl:when test="$fn='start-end-b'"><xsl:for-each select="//a:b/text()"><xsl:call-template name="escape-inlines-start-end"><xsl:with-param name="text" select="."/></xsl:call-template></xsl:for-each></xsl:when>
+      <xsl:when test="$fn='start-end-i'"><xsl:for-each select="//a:i/text()"><xsl:call-template name="escape-inlines-start-end"><xsl:with-param name="text" select="."/></xsl:call-template></xsl:for-each></xsl:when>
+      <xsl:when test="$fn='start-end-u'"><xsl:for-each select="//a:u/text()"><xsl:call-template name="escape-inlines-start-end"><xsl:with-param name="text" select="."/></xsl:call-template></xsl:for-each></xsl:when>
+      <xsl:when test="$fn='start-end-sup'"><xsl:for-each select="//a:sup/text()"><xsl:call-template name="escape-inlines-start-end"><xsl:with-param name="text" select="."/></xsl:call-template></xsl:for-each></xsl:when>
+    </xsl:choose>
+  </xsl:template>
+</xsl:stylesheet>''' % path
+        _XSL_WRAPPER = etree.XSLT(etree.fromstring(src))
+    return _XSL_WRAPPER
+
+def xsl_call(args):
+    """(template name, string) -> output string | ['ERR', kind]"""
+    from lxml import etree
+    from . import xmlsx
+    fn, s = args
+    try:
+        if fn.startswith('start-end'):
+            tag = {"00": "span", "b": "b", "i": "i", "u": "u", "sup": "sup"}[fn.split("-")[-1]]
+            doc = etree.Element('{%s}r' % xmlsx.NS, nsmap={None: xmlsx.NS})
+            e = etree.SubElement(doc, '{%s}%s' % (xmlsx.NS, tag)); e.text = s
+            return str(_wrapper()(doc, fn=etree.XSLT.strparam(fn)))
+        doc = etree.Element('r')
+        return str(_wrapper()(doc, fn=etree.XSLT.strparam(fn), arg=etree.XSLT.strparam(s)))
+    except Exception as e:
+        return ['ERR', type(e).__name__]
